@@ -43,7 +43,7 @@ def snap(o, depth=0, seen=None):
     if o is None or isinstance(o, (bool, int, str)):
         return o
     if isinstance(o, float):
-        return round(o, 9) if o == o else "nan"
+        return repr(o)      # exact: a copy is bit-identical, an untouched object does not change at all
     if isinstance(o, complex):
         return ("complex", round(o.real, 9), round(o.imag, 9))
     if depth > 12:
@@ -87,6 +87,19 @@ def sources(svg):
         g.append(svg.Path("M0,0 L1,1 Q2,2 3,0", id="gp"))
         return g
 
+    def group_with_use():
+        g = svg.Group(id="gu", transform="translate(1,2)")
+        g.append(svg.Circle(4, -3, 2.5, stroke="blue", id="c1"))
+        u = svg.Use(x=3, y=4, id="u")
+        u.append(svg.Rect(1, 2, 3, 4, fill="green", id="ur"))
+        inner = svg.Group(id="gi")
+        inner.append(u)
+        g.append(inner)
+        u2 = svg.Use(x=-1, id="u2")
+        u2.append(svg.Path("M0,0 L1,1 Q2,2 3,0", id="up"))
+        g.append(u2)
+        return g
+
     def parsed():
         import io
         doc = ('<svg xmlns="http://www.w3.org/2000/svg" width="100" height="80" viewBox="0 0 50 40">'
@@ -103,7 +116,8 @@ def sources(svg):
         "quad": lambda: svg.QuadraticBezier(P(0, 0), P(7, 5), P(-4, 1.5)),
         "cubic": lambda: svg.CubicBezier(P(0, 0), P(7, 5), P(-4, 1.5), P(11, -6)),
         "arc": lambda: svg.Arc(P(0, 0), 10, 5, 30, 0, 1, P(7, 4)),
-        "path": path, "path2": path2, "subpath": lambda: svg.Path("M0,0 L1,1 z M5,5 Q6,6 7,5 L9,9").subpath(1),
+        "path": path, "path2": path2, "group-with-use": group_with_use, "length-precise": lambda: svg.Length(100.0 / 3.0, "%"),
+        "length-tiny-em": lambda: svg.Length("0.1234567890123456em"), "subpath": lambda: svg.Path("M0,0 L1,1 z M5,5 Q6,6 7,5 L9,9").subpath(1),
         "rect": lambda: svg.Rect(2, 3, 7, 5, 1.5, 1, "skewX(10)", "blue", "red"),
         "circle": lambda: svg.Circle(4, -3, 2.5, fill="#123456", id="c"), "ellipse": lambda: svg.Ellipse(4, -3, 2.5, 1.25, "rotate(30)"),
         "sline": lambda: svg.SimpleLine(1, 2, 6, -4, stroke="black"),
@@ -137,6 +151,8 @@ def derivations(svg):
         "type(x)(x)": lambda x: type(x)(x) if isinstance(x, (svg.Shape, svg.Point, svg.Matrix, svg.Color, svg.Viewbox)) else NotImplemented,
         "x+seg": lambda x: (x + svg.Line(svg.Point(50, 50), svg.Point(60, 60))) if isinstance(x, (svg.Path, svg.PathSegment, svg.Subpath)) else NotImplemented,
         "x+str": lambda x: (x + "L 9 9") if isinstance(x, (svg.Path, svg.PathSegment, svg.Subpath)) else NotImplemented,
+        "str+x": lambda x: ("M-9,-9 L-8,-8" + x) if isinstance(x, (svg.Path, svg.PathSegment, svg.Subpath)) else NotImplemented,
+        "seg+x": lambda x: (svg.Line(svg.Point(-9, -9), svg.Point(-8, -8)) + x) if isinstance(x, (svg.Path, svg.Subpath)) else NotImplemented,
         "~x": lambda x: ~x if isinstance(x, svg.Matrix) else NotImplemented,
         "x@M": lambda x: (x @ Mx()) if isinstance(x, (svg.Matrix, svg.Shape)) else NotImplemented,
         # neutral elements of the arithmetic (the inputs that invite "nothing to do, return the operand")
